@@ -8,6 +8,7 @@ import (
 	"bytes"
 	"crypto/cipher"
 	"fmt"
+	"syscall"
 	"testing"
 
 	"github.com/bilibili/smgo/sm4"
@@ -196,4 +197,148 @@ func TestVerif_C06_Sweeps(t *testing.T) {
 		}
 	}
 	rec.Sample("sweep", map[string]interface{}{"key": fmt.Sprintf("%x", key), "max_len": maxLen})
+}
+
+// Lengths whose BIT length does not fit in 32 bits (thorough tier only: half a gigabyte of aad / plaintext).
+func TestVerif_C06_HugeLengths(t *testing.T) {
+	rec := stats.Get("C06", "huge-lengths")
+	rec.Rule("thorough only: aad of 2^29 and 2^29+5 bytes with a 37-byte plaintext, and a plaintext of 2^29+17 bytes with 5 bytes of aad (12-byte nonce, tag 16). Oracle: tag = E(J0) xor GHASH computed by a streaming form of the reference over aad, ciphertext and the 64-bit length block; ciphertext = reference CTR (complete for the short plaintexts; for the long one the first and last blocks, the tail and 4000 sampled counter positions are recomputed with sm4ref). 3 cases, all non-trivial (bit lengths above 2^32).")
+	t.Cleanup(stats.FlushAll)
+	if !vt.Thorough() {
+		rec.Note("skipped in the quick tier (needs about 1 GiB of memory and half a minute)")
+		t.Skip("thorough only")
+	}
+	if si, _ := vt.Shard(); si != 0 {
+		t.Skip("shard 0 only")
+	}
+	key := []byte{0x01, 0x23, 0x45, 0x67, 0x89, 0xab, 0xcd, 0xef, 0xfe, 0xdc, 0xba, 0x98, 0x76, 0x54, 0x32, 0x10}
+	ref := sm4ref.New(key)
+	b, _ := sm4.NewCipher(key)
+	a, err := cipher.NewGCM(b)
+	if err != nil {
+		t.Fatal(err)
+	}
+	nonce := []byte{1, 2, 3, 4, 5, 6, 7, 8, 9, 10, 11, 12}
+	j0 := gcmref.J0(ref, nonce)
+	h := gcmref.HashKey(ref)
+	ej0 := make([]byte, 16)
+	ref.Encrypt(ej0, j0)
+	big := make([]byte, 1<<29+17)
+	for i := range big {
+		big[i] = byte(i*131 + i>>11)
+	}
+	for _, c := range []struct{ aadLen, ptLen int }{{1 << 29, 37}, {1<<29 + 5, 37}, {5, 1<<29 + 17}} {
+		aad, pt := big[:c.aadLen], big[:c.ptLen]
+		var out []byte
+		if p := vt.Catch(func() { out = a.Seal(nil, nonce, pt, aad) }); p != nil {
+			vt.Fail(t, rec, "C06:seal:panic", "Seal panicked with aad %d bytes, plaintext %d bytes: %v", c.aadLen, c.ptLen, p)
+			continue
+		}
+		rec.Case(uint64(c.aadLen)<<32|uint64(c.ptLen), true, "huge")
+		rec.Sample("huge", map[string]interface{}{"aad_len": c.aadLen, "pt_len": c.ptLen})
+		if len(out) != c.ptLen+16 {
+			vt.Fail(t, rec, "C06:seal:ciphertext", "output length %d", len(out))
+			continue
+		}
+		ct := out[:c.ptLen]
+		// ciphertext: complete for short plaintexts, sampled for the long one
+		check := func(blk int) bool {
+			ks := make([]byte, 16)
+			ref.Encrypt(ks, gcmref.CounterBlock(j0, uint32(blk+1)))
+			for i := 0; i < 16 && 16*blk+i < c.ptLen; i++ {
+				if ct[16*blk+i] != pt[16*blk+i]^ks[i] {
+					return false
+				}
+			}
+			return true
+		}
+		nblk := (c.ptLen + 15) / 16
+		bad := -1
+		for k := 0; k < 4000 && bad < 0; k++ {
+			blk := k
+			if nblk > 4000 {
+				blk = int((uint64(k)*2654435761 + 12345) % uint64(nblk))
+				if k < 20 {
+					blk = k
+				} else if k < 40 {
+					blk = nblk - 1 - (k - 20)
+				}
+			} else if k >= nblk {
+				break
+			}
+			if !check(blk) {
+				bad = blk
+			}
+		}
+		if bad >= 0 {
+			vt.Fail(t, rec, "C06:seal:ciphertext", "ciphertext block %d wrong (aad %d bytes, plaintext %d bytes)", bad, c.aadLen, c.ptLen)
+			continue
+		}
+		g := gcmref.NewGHashStream(h)
+		g.Blocks(aad)
+		g.Blocks(ct)
+		s := g.Sum(c.aadLen, c.ptLen)
+		want := make([]byte, 16)
+		for i := range want {
+			want[i] = s[i] ^ ej0[i]
+		}
+		if !bytes.Equal(out[c.ptLen:], want) {
+			vt.Fail(t, rec, "C06:seal:tag", "tag wrong for aad of %d bytes (bit length %d) and plaintext of %d bytes\n got %x\nwant %x", c.aadLen, uint64(c.aadLen)*8, c.ptLen, out[c.ptLen:], want)
+		}
+	}
+}
+
+// Quick-tier companion of the huge-length test: additional data of 2^29 and 2^29+5 ZERO bytes (untouched anonymous pages,
+// so no memory is really needed). GHASH of zero blocks from the zero state stays zero, so the expected tag only needs the
+// ciphertext and the length block — the bit length of the aad (> 2^32) is what is being tested.
+func TestVerif_C06_HugeZeroAAD(t *testing.T) {
+	rec := stats.Get("C06", "huge-zero-aad")
+	rec.Rule("aad of 2^29, 2^29+5 and 2^30+16 zero bytes (read-only anonymous mapping), plaintext 0, 37 and 300 bytes, 12-byte nonce, tag 16: expected tag = E(J0) xor GHASH(0-blocks || C || [len A]_64 [len C]_64) where the zero blocks leave the GHASH state at zero (reference streaming GHASH). 9 cases, all non-trivial (aad bit length >= 2^32); distinct by (aad length, plaintext length).")
+	t.Cleanup(stats.FlushAll)
+	const maxAad = 1<<30 + 16
+	mem, err := syscall.Mmap(-1, 0, maxAad, syscall.PROT_READ, syscall.MAP_ANON|syscall.MAP_PRIVATE)
+	if err != nil {
+		rec.Skipped("cannot map 1 GiB of zero pages: " + err.Error())
+		t.Skip()
+	}
+	defer syscall.Munmap(mem)
+	key := []byte{0xf0, 0xe1, 0xd2, 0xc3, 0xb4, 0xa5, 0x96, 0x87, 0x78, 0x69, 0x5a, 0x4b, 0x3c, 0x2d, 0x1e, 0x0f}
+	ref := sm4ref.New(key)
+	b, _ := sm4.NewCipher(key)
+	a, _ := cipher.NewGCM(b)
+	nonce := []byte{9, 8, 7, 6, 5, 4, 3, 2, 1, 0, 1, 2}
+	j0 := gcmref.J0(ref, nonce)
+	ej0 := make([]byte, 16)
+	ref.Encrypt(ej0, j0)
+	pt := make([]byte, 300)
+	for i := range pt {
+		pt[i] = byte(i * 7)
+	}
+	for _, al := range []int{1 << 29, 1<<29 + 5, maxAad} {
+		for _, pl := range []int{0, 37, 300} {
+			var out []byte
+			if p := vt.Catch(func() { out = a.Seal(nil, nonce, pt[:pl], mem[:al]) }); p != nil {
+				vt.Fail(t, rec, "C06:seal:panic", "Seal panicked with %d bytes of aad: %v", al, p)
+				continue
+			}
+			rec.Case(uint64(al)<<16|uint64(pl), true, "huge-zero-aad")
+			icb := gcmref.CounterBlock(j0, 1)
+			ct := gcmref.GCTR(ref, icb, pt[:pl])
+			g := gcmref.NewGHashStream(gcmref.HashKey(ref)) // the al zero bytes leave the state at zero
+			g.Blocks(ct)
+			s := g.Sum(al, pl)
+			want := append([]byte(nil), ct...)
+			for i := 0; i < 16; i++ {
+				want = append(want, s[i]^ej0[i])
+			}
+			if !bytes.Equal(out, want) {
+				what := "tag"
+				if len(out) < pl || !bytes.Equal(out[:pl], ct) {
+					what = "ciphertext"
+				}
+				vt.Fail(t, rec, "C06:seal:"+what, "Seal with %d zero bytes of aad (bit length %d) and %d bytes of plaintext differs from SP 800-38D in the %s\n got %x\nwant %x", al, uint64(al)*8, pl, what, out, want)
+			}
+		}
+	}
+	rec.Sample("huge-zero-aad", map[string]interface{}{"aad_lengths": []int{1 << 29, 1<<29 + 5, maxAad}, "pt_lengths": []int{0, 37, 300}})
 }
